@@ -72,3 +72,11 @@ Check C02_resolve_latest : forall (R : resolver) (tid : dict -> N) allow (member
     forall n fuel, n < size ->
       stored file 0 n (latest h n) (resolve_ref prim (obj_at_parse R allow F_ANY) member (S fuel) file 0 t n).
 Check C02_locate_startxref : forall file q, startxref_at file q -> locate_xref_offset file = Ok q.
+Check C02_table_total : forall s, no_panic (read_xref_table_at s).
+Check C02_locate_xref_total : forall file, no_panic (locate_xref_offset file).
+Check C02_lexer_progress : forall s,
+  match next_word s with
+  | Ok (_, _, s') => (length (lrest s') < length (lrest s))%nat
+  | Err _ => True
+  | _ => False
+  end.
